@@ -33,7 +33,7 @@ def check_ints(obj, path="$"):
 
 
 def validate(module: str, tag: str, traces: list, *, constants=None, workers="auto", timeout=3600,
-             extra_env=None, invariants=("Done",), extra_defs: str = ""):
+             extra_env=None, invariants=("Done",), extra_defs: str = "", spec: str = "Spec"):
     """Returns (verdicts, tlc_result); verdicts[i] is [] (accepted) or a list of (event, clause)."""
     if not traces:
         raise tlc.TLCError(f"no traces recorded for {tag}")
@@ -48,7 +48,7 @@ def validate(module: str, tag: str, traces: list, *, constants=None, workers="au
     if extra_env:
         env.update(extra_env)
     res = tlc.run_model(module, tag, constants=constants, invariants=list(invariants), env=env,
-                        workers=workers, timeout=timeout, extra_defs=extra_defs)
+                        workers=workers, timeout=timeout, extra_defs=extra_defs, spec=spec)
     if res.violated:
         raise tlc.TLCError(f"trace spec {module} reported an invariant violation {res.violated} (see {res.out_path})")
     ok = set()
